@@ -51,6 +51,12 @@ class ServerRun:
                         client.send(b"echo")
                     elif a.startswith("disc"):
                         client.disconnect()
+                    elif a == "kick":
+                        # "player left: kick the opponents" - used in the shutdown phase only, where the model needs no notion of it
+                        # (every pool entry gets its disconnect event whatever its status, and nothing is sent any more)
+                        for other in list(run.ctxt.connections.values()):
+                            if other is not client:
+                                other.disconnect()
                 if a.endswith("aise"):
                     raise RuntimeError("handler script: raise in " + what)
 
@@ -557,7 +563,7 @@ def gen_server_case(real, rng, cid, n_iter=50, n_clients=3, hostile=0.3, mtu=150
             t = ts + rng.choice([8, 16, 17, 33, 50, 100, 300])
             if rng.random() < stop_early / max(1, n_iter):
                 break
-        yield {"stop": True, "acts": [rng.choice(["ok", "raise"]) for _ in range(10)]}
+        yield {"stop": True, "acts": [rng.choice(["ok", "raise", "kick", "kick"]) for _ in range(10)]}
 
     sc = scenario()
     srv = ServerRun(real, cfg, sc)
